@@ -3,6 +3,8 @@ import RpmVerif.Driver.Hash
 import RpmVerif.Model.Sign
 import RpmVerif.Model.SignE
 import RpmVerif.Spec.Digest
+import RpmVerif.Model.Io
+import RpmVerif.Model.BufWriter
 /-! Driver for C10. Op `hist <kind> <start package bytes> <ops> <ids> [gpg]` (see harness/src/c10.rs).
 
 Observation: one record for the start state and one per step, joined by `;`:
@@ -185,7 +187,7 @@ def parseTs (s : String) : Option AddData.TsArg :=
 `r<hex>` a foreign implementation answering with these bytes, `c`, `w` -/
 def parseOp (s : String) : Option (OpF UInt8) :=
   if s == "c" then some .clear
-  else if s == "w" then some .writeParse
+  else if s == "w" || s == "W" then some .writeParse
   else
     let (head, ts?) : String × Option (Option AddData.TsArg) := match s.splitOn "@" with
       | [h, t] => (h, some (parseTs t))
@@ -276,6 +278,15 @@ def resOfSuccess (o : OpF UInt8) : String :=
 def implGpg (implRecs : List String) (i : Nat) : String :=
   ((implRecs.getD i "").splitOn ",").getD 6 ""
 
+/-- `Package::write_file(path)` then `Package::open(path)` (std's BufWriter / BufReader capacity 8192, a file that accepts
+everything and hands out whatever is asked) -/
+def writeFileOpen (p : Package) : Out Package :=
+  let ds := (Io.prog p).map Io.Act.buf
+  let f := Io.writeFile 8192 ds (List.replicate (ds.length + 4) (Io.Resp.ok ((writePackage p).length + 1)))
+  match f.2 with
+  | .ok => Io.parseChunked f.1 (List.replicate (f.1.length / 8192 + 8) (Io.Chunk.size 8192))
+  | _ => .err "io"
+
 /-- model observation: records of the start state and of every step -/
 def modelObs (ids : UInt8 → Bytes) (H : Hashes) (p0 : Package)
     (opsL : List (String × OpF UInt8)) (gpg : Bool) (implRecs : List String) : String :=
@@ -286,7 +297,10 @@ def modelObs (ids : UInt8 → Bytes) (H : Hashes) (p0 : Package)
     | (name, o) :: os =>
       match o with
       | .writeParse =>
-        match stepF S pubAlgOf H.sha256 o p with
+        -- `w` = `write` into a Vec + `parse` of the slice (`Sign.writeParse`); `W` = `write_file` + `Package::open`: the same
+        -- step through `Io.writeFile` (BufWriter of std's capacity around an accepting file) and `Io.parseChunked` (BufReader
+        -- chunks) — equal to `writeParse` by C14.write_file_then_open, here COMPUTED so that the tie sees a difference
+        match (if name == "W" then writeFileOpen p else stepF S pubAlgOf H.sha256 o p) with
         | .ok q => go q os (i + 1) (recordR ids H q "-" (if gpg then some "-" else none) :: acc)
         | _ => (("E:" ++ name) :: acc).reverse
       | _ =>
@@ -419,6 +433,7 @@ def histLabel (kind : String) (opsL : List (String × OpF UInt8)) : String :=
     ++ has (fun | .sign _ (.src _) => true | _ => false) "-tsconv"
     ++ has (fun | .signNow _ _ => true | _ => false) "-now"
     ++ has (fun | .sign (.key _) (.secs t) => t != sigTime | _ => false) "-othertime"
+    ++ (if opsL.any (fun x => x.1 == "W") then "-wfile" else "")
   s!"{kind}-len{opsL.length}-{fin}{special}"
 
 def handleHist (args : List String) (impl : String) : String :=
